@@ -264,10 +264,13 @@ pub fn inject(doc: &mut ADoc, defect: usize, sel: &mut Tape, tail: &mut Vec<u8>,
                                     if !matches!(cm, ContentMode::Sequence | ContentMode::Choice) || mult == Some(ElementMultiplicity::Any) {
                                         continue;
                                     }
+                                    // the claim is decided with the adjacent duplicate (no ordering involved); the duplicate itself
+                                    // is placed adjacently or after some later siblings (the validator ignores sibling order)
                                     let n = node_at(&mut doc.root, p);
                                     let dup = n.content[i].clone();
-                                    n.content.insert(i + 1, dup);
-                                    return Some(format!("second {nm} inside {}", n.name));
+                                    let at = if sel.chance(128) { i + 1 } else { i + 1 + sel.below(n.content.len() - i) };
+                                    n.content.insert(at.min(n.content.len()), dup);
+                                    return Some(format!("second {nm} inside {} ({})", n.name, if at == i + 1 { "adjacent" } else { "separated" }));
                                 }
                             }
                         } else {
